@@ -112,21 +112,22 @@ Theorem C20_assembler_waits_only_for_reader : forall le hist prog n s,
 Proof. exact assembler_waits_only_for_reader. Qed.
 Print Assumptions C20_assembler_waits_only_for_reader.
 
-(* ---- rendezvous determinism: every code variant has the diamond property, so all maximal
+(* ---- rendezvous determinism: every code variant whose channel operations are all blocking
+   ([ack_nb g = false]: the code as it was and as repaired) has the diamond property, so all maximal
    runs from a state have the same length and the same final state; the executable canonical
    schedule computes it and any other scheduling function gives the same result.  This is why
    the correspondence needs no control over the Go scheduler. *)
-Theorem C20_schedule_independent : forall g s n1 t1 n2 t2,
+Theorem C20_schedule_independent : forall g s n1 t1 n2 t2, ack_nb g = false ->
   steps (step g) n1 s t1 -> nf (step g) t1 -> steps (step g) n2 s t2 -> nf (step g) t2 ->
   t1 = t2 /\ n1 = n2.
 Proof. exact maximal_runs_agree. Qed.
 Print Assumptions C20_schedule_independent.
 
-Theorem C20_run_is_the_outcome : forall g s n t, steps (step g) n s t -> nf (step g) t ->
+Theorem C20_run_is_the_outcome : forall g s n t, ack_nb g = false -> steps (step g) n s t -> nf (step g) t ->
   run g (mu g s) s = (t, true).
 Proof. exact run_is_the_outcome. Qed.
 
-Theorem C20_any_scheduler_same_result : forall g sched s,
+Theorem C20_any_scheduler_same_result : forall g sched s, ack_nb g = false ->
   run_sched g sched (mu g s) 0 s = run g (mu g s) s.
 Proof. exact run_sched_independent. Qed.
 Print Assumptions C20_any_scheduler_same_result.
@@ -160,6 +161,25 @@ Proof. exact progress_statement_close_orig_false. Qed.
 Theorem C20_close_orig_stuck_whenever_held : forall le c ro rest d,
   nf (step (close_orig le)) (mkS (close_begin (close_orig le) (set_ops c ro)) (AWait rest) false d).
 Proof. exact close_orig_stuck. Qed.
+
+(* The acknowledgement in Close must be a BLOCKING send.  With the non-blocking variant
+   select { case r.done <- true: default: } ("Close must never block") the acknowledgement is
+   dropped when the assembler's send on r.reassembled has completed but the assembler is not yet
+   parked in <-r.done (pc ASent): same history and program as above; under the consumer-first
+   schedule both sides end up waiting for ever, under the assembler-first schedule they finish. *)
+Theorem C20_nonblocking_ack_refuted : forall le,
+  let g := nonblocking_ack le in
+  (exists n s, good_prog refute_prog = true /\
+     steps (step g) n (init g refute_hist refute_prog) s /\ nf (step g) s /\ ~ terminal s /\
+     pc (cs s) = CCloseRecv /\ ap s = AWait [] /\ rev (out (cs s)) = [ORead 1 [1%Z] ENil] /\
+     run_sched g (fun _ => false) (mu g (init g refute_hist refute_prog)) 0 (init g refute_hist refute_prog) = (s, true)) /\
+  (exists n s, steps (step g) n (init g refute_hist refute_prog) s /\ terminal s /\
+     run_sched g (fun _ => true) (mu g (init g refute_hist refute_prog)) 0 (init g refute_hist refute_prog) = (s, true)).
+Proof. exact nonblocking_ack_refuted. Qed.
+Print Assumptions C20_nonblocking_ack_refuted.
+
+Theorem C20_nonblocking_ack_statement_refuted : forall le, ~ progress_statement (nonblocking_ack le).
+Proof. exact progress_statement_nonblocking_ack_false. Qed.
 
 (* stripEmpty of the unrepaired tree, LossErrors set: history [[{Bytes: empty, Skip: 3}]],
    read until EOF: EOF at once, the loss is never reported *)
